@@ -27,7 +27,7 @@ FILES = {
     "go/mcap/parse.go": ["C01", "C10", "C11", "C17"],
     "go/mcap/indexed_message_iterator.go": ["C02", "C03", "C04", "C12", "C20"],
     "go/mcap/unindexed_message_iterator.go": ["C01", "C02", "C04", "C09"],
-    "go/mcap/reader.go": ["C02", "C04", "C08", "C10"],
+    "go/mcap/reader.go": ["C01", "C02", "C04", "C08", "C10"],
     "go/mcap/reader_options.go": ["C04"],
     "go/mcap/mcap.go": ["C02", "C08", "C10"],
     "go/mcap/utils.go": ["C01", "C10", "C15", "C20"],
